@@ -150,3 +150,43 @@ pub fn exact_swap_out(
         BigUint::zero()
     }
 }
+
+/// Bracket of the exact maximal output: (lo, hi) with lo <= E_true <= hi, lo computed with the
+/// invariant rounded up by one 10^-extra unit and hi with it rounded down, so neither bound can
+/// be wrong because of the finite resolution of D.
+pub fn exact_swap_bracket(
+    amounts: &[u128],
+    decs: &[u8],
+    amp: u64,
+    i: usize,
+    j: usize,
+    offer: u128,
+    extra: u32,
+) -> (BigUint, BigUint) {
+    let m = *decs.iter().max().unwrap() as u32;
+    let xs = normalise(amounts, decs);
+    let d_lo = d_floor_scaled(&xs, amp, extra);
+    let d_hi = &d_lo + BigUint::one();
+    let den = pow10(extra);
+    let mut others = vec![];
+    for k in 0..xs.len() {
+        if k == j {
+            continue;
+        }
+        if k == i {
+            others.push(&xs[k] + big(offer) * pow10(m - decs[k] as u32));
+        } else {
+            others.push(xs[k].clone());
+        }
+    }
+    let scale_j = pow10(m - decs[j] as u32);
+    let out = |d: &BigUint| {
+        let y = y_ceil(&others, amp, d, &den);
+        if xs[j] >= y {
+            (&xs[j] - &y) / &scale_j
+        } else {
+            BigUint::zero()
+        }
+    };
+    (out(&d_hi), out(&d_lo))
+}
